@@ -295,6 +295,16 @@ type MailboxView struct {
 	*Mailbox
 	tracker   *imapserver.SessionTracker
 	searchRes imap.UIDSet
+	readOnly  bool // opened with EXAMINE: the permanent state must not change
+}
+
+// errReadOnly is returned by commands which would change a mailbox opened
+// read-only.
+func errReadOnly() error {
+	return &imap.Error{
+		Type: imap.StatusResponseTypeNo,
+		Text: "Mailbox is read-only",
+	}
 }
 
 // Close releases the resources allocated for the mailbox view.
@@ -303,9 +313,10 @@ func (mbox *MailboxView) Close() {
 }
 
 func (mbox *MailboxView) Fetch(w *imapserver.FetchWriter, numSet imap.NumSet, options *imap.FetchOptions) error {
+	// A read-only mailbox keeps its flags: BODY[] behaves like BODY.PEEK[]
 	markSeen := false
 	for _, bs := range options.BodySection {
-		if !bs.Peek {
+		if !bs.Peek && !mbox.readOnly {
 			markSeen = true
 			break
 		}
@@ -420,6 +431,9 @@ func (mbox *MailboxView) staticSearchCriteria(criteria *imap.SearchCriteria) {
 }
 
 func (mbox *MailboxView) Store(w *imapserver.FetchWriter, numSet imap.NumSet, flags *imap.StoreFlags, options *imap.StoreOptions) error {
+	if mbox.readOnly {
+		return errReadOnly()
+	}
 	mbox.forEach(numSet, func(seqNum uint32, msg *message) {
 		msg.store(flags)
 		mbox.Mailbox.tracker.QueueMessageFlags(seqNum, msg.uid, msg.flagList(), mbox.tracker)
@@ -428,6 +442,20 @@ func (mbox *MailboxView) Store(w *imapserver.FetchWriter, numSet imap.NumSet, fl
 		return mbox.Fetch(w, numSet, &imap.FetchOptions{Flags: true})
 	}
 	return nil
+}
+
+// Expunge removes the messages marked as deleted, unless the mailbox has been
+// opened read-only.
+func (mbox *MailboxView) Expunge(w *imapserver.ExpungeWriter, uids *imap.UIDSet) error {
+	if mbox.readOnly {
+		// CLOSE reaches the session as an expunge of all messages too: on a
+		// read-only mailbox it removes nothing and gives no error
+		if uids == nil {
+			return nil
+		}
+		return errReadOnly()
+	}
+	return mbox.Mailbox.Expunge(w, uids)
 }
 
 func (mbox *MailboxView) Poll(w *imapserver.UpdateWriter, allowExpunge bool) error {
